@@ -271,6 +271,16 @@ func runC15With(c c15Case, strict bool, schemaForType func(interface{}) (avro.Sc
 		}
 		labels = append(labels, "codec_refused")
 	}
+	// deterministic also after the caller has edited the value it was given (a
+	// schema is a plain value; BigQuery users mark columns as timestamps this way)
+	scrambleLibSchema(&s1)
+	s4, err := schemaForType(zero)
+	if err != nil {
+		return nt, labels, fmt.Errorf("SchemaForType fails after the caller edited an earlier result: %v", err)
+	}
+	if d := fromLib(s4).Diff(got, ""); d != "" {
+		return nt, labels, fmt.Errorf("after the caller edited the schema an earlier call returned, SchemaForType gives a different schema for the same type: %s", d)
+	}
 	return nt, labels, nil
 }
 
